@@ -3,7 +3,7 @@ them (DESIGN 3.1), and splicing of contract text.  Everything that is not a repo
 between the sentinels /*@+*/ and /*@-*/ so that the fidelity guard can remove it again."""
 import copy
 import hashlib
-import os
+import os, json
 import re
 
 from .lexer import Tok, lex, match_close, strip_comments, LexError
@@ -57,6 +57,10 @@ class FnC:
         self.loops = dict(loops or {})
         self.iters = dict(iters or {})
         self.external_body = external_body
+        # an external_body function of the REPO whose text differs from the recorded outside-the-subset text
+        # (contracts/outside_subset.json) is given to the verifier with its body: a rewrite INTO the subset is
+        # then checked against the contract instead of staying on the bounded stand-in
+        self.try_body = True
         self.extra_spec = extra_spec      # e.g. "opens_invariants none no_unwind"
         self.props = tuple(props)         # properties the body-level (safety) obligations belong to
         self.kani = tuple(kani)           # kani harnesses that stand in / confirm
@@ -683,6 +687,33 @@ def body_hash(toks, fn):
     return h.hexdigest()[:16]
 
 
+_OUTSIDE = None
+FORCE_EXTERNAL = set()
+
+
+def outside_subset():
+    global _OUTSIDE
+    if _OUTSIDE is None:
+        p = os.path.join(os.path.dirname(os.path.dirname(os.path.abspath(__file__))), 'contracts', 'outside_subset.json')
+        _OUTSIDE = json.load(open(p)).get('functions', {}) if os.path.exists(p) else {}
+    return _OUTSIDE
+
+
+def effective_fc(fc, ctx, toks, fn):
+    """(FnC to splice, tried_body): see FnC.try_body"""
+    if fc is None or not fc.external_body or not fn.body or not getattr(fc, 'try_body', True):
+        return fc, False
+    if os.environ.get('VERIF_RECORD_OUTSIDE'):
+        return fc, False
+    if outside_subset().get(ctx) == body_hash(toks, fn) or ctx in FORCE_EXTERNAL:
+        return fc, False
+    import copy
+    fc2 = copy.copy(fc)
+    fc2.external_body = False
+    fc2.note = (fc.note + ' ' if fc.note else '') + '[text differs from the recorded outside-the-subset text: body given to the verifier]'
+    return fc2, True
+
+
 class Extracted:
     """result of generating one module"""
 
@@ -780,9 +811,11 @@ def gen_mod(mod, sources):
                             # default method): verified against whatever the shim trait demands of it
                             fc = FnC(inherits=True, props=sel.rest_props,
                                      note='no contract file: checked against the inherited trait contract only')
+                    fc, tried = effective_fc(fc, ctx, toks, m)
                     splice_fn(em, toks, m, fc, ctx, ex.marks)
                     orig = [o for o in it.members if o.kind == 'fn' and o.name == m.name][0]
                     ex.functions.append({
+                        'tried_body': tried,
                         'id': ctx, 'file': mod.file, 'anchor': sel.anchor + ' :: fn ' + m.name,
                         'line': src.toks[orig.kw].line, 'body_sha256_16': body_hash(toks, m),
                         'under_contract': bool(fc and (fc.ensures or fc.requires or not fc.external_body) and fc.note != 'not under contract'),
@@ -804,8 +837,10 @@ def gen_mod(mod, sources):
             if set(sel.fns) - {p.name}:
                 raise InfraError('contract for unknown fn in %s' % sel.anchor)
             ctx = base_ctx.replace('fn_', '')
+            fc, tried = effective_fc(fc, ctx, toks, p)
             splice_fn(em, toks, p, fc, ctx, ex.marks)
             ex.functions.append({
+                'tried_body': tried,
                 'id': ctx, 'file': mod.file, 'anchor': sel.anchor, 'line': src.toks[it.kw].line,
                 'body_sha256_16': body_hash(toks, p),
                 'under_contract': bool(fc), 'external_body': bool(fc and fc.external_body),
